@@ -3,6 +3,7 @@ package simrt
 import (
 	"runtime"
 	"sync"
+	"unsafe"
 )
 
 // Cooperative versions of the blocking operations a modified library may
@@ -83,22 +84,88 @@ func CondWait(c *sync.Cond) {
 	LockLocker(c.L)
 }
 
+// mailItem is a value in flight on an unbuffered channel between two
+// simulated tasks. Two tasks that both poll with non-blocking operations
+// would never meet on an unbuffered channel (each succeeds only if the other
+// is parked inside the runtime), so the rendezvous is emulated: the sender
+// posts the value and waits until a receiver has taken it.
+type mailItem struct {
+	ch    unsafe.Pointer
+	val   any
+	taken bool
+}
+
+//go:norace
+func (s *Sim) post(it *mailItem) {
+	n := len(s.mail)
+	bigger := make([]*mailItem, n+1)
+	for i := 0; i < n; i++ {
+		bigger[i] = s.mail[i]
+	}
+	bigger[n] = it
+	s.mail = bigger
+}
+
+//go:norace
+func (s *Sim) take(ch unsafe.Pointer) *mailItem {
+	for i := 0; i < len(s.mail); i++ {
+		if it := s.mail[i]; it.ch == ch && !it.taken {
+			it.taken = true
+			for k := i; k+1 < len(s.mail); k++ {
+				s.mail[k] = s.mail[k+1]
+			}
+			s.mail = s.mail[:len(s.mail)-1]
+			return it
+		}
+	}
+	return nil
+}
+
 // Send replaces "ch <- v".
 //
 //go:norace
 func Send[T any](ch chan<- T, v T) {
+	s := cur
+	var it *mailItem
 	for {
-		select {
-		case ch <- v:
+		if it == nil {
+			select {
+			case ch <- v:
+				progress()
+				return
+			default:
+			}
+			if ch != nil && cap(ch) == 0 && s.inTask() {
+				it = &mailItem{ch: dataPtr(ch), val: v}
+				raceReleaseMerge(it.ch) // a send synchronises-before the matching receive
+				s.post(it)
+			}
+		} else if it.taken {
+			raceAcquire(unsafe.Pointer(it)) // ... and the receive before the completion of the send
 			progress()
 			return
-		default:
 		}
 		if !Blocked() {
 			ch <- v
 			return
 		}
 	}
+}
+
+//go:norace
+func recvMail[T any](ch <-chan T) (v T, ok bool) {
+	s := cur
+	if ch == nil || cap(ch) != 0 || !s.inTask() {
+		return v, false
+	}
+	it := s.take(dataPtr(ch))
+	if it == nil {
+		return v, false
+	}
+	raceAcquire(it.ch)
+	raceReleaseMerge(unsafe.Pointer(it))
+	progress()
+	return it.val.(T), true
 }
 
 // Recv replaces "<-ch".
@@ -111,6 +178,9 @@ func Recv[T any](ch <-chan T) T {
 			progress()
 			return v
 		default:
+		}
+		if v, ok := recvMail(ch); ok {
+			return v
 		}
 		if !Blocked() {
 			return <-ch
@@ -128,6 +198,9 @@ func Recv2[T any](ch <-chan T) (T, bool) {
 			progress()
 			return v, ok
 		default:
+		}
+		if v, ok := recvMail(ch); ok {
+			return v, true
 		}
 		if !Blocked() {
 			v, ok := <-ch
